@@ -417,6 +417,13 @@ func Main() {
 			}
 		}
 	}
+	if replay == "" {
+		// stale witnesses of an earlier run with the same (id, tier, seed) would be misleading
+		old, _ := filepath.Glob(filepath.Join(Root(), "replay", fmt.Sprintf("%s-%s-seed%d-*.json", id, c.Tier, c.Seed)))
+		for _, f := range old {
+			_ = os.Remove(f)
+		}
+	}
 	code := c.run(reg.fn)
 	os.Exit(code)
 }
